@@ -8,7 +8,7 @@ from ..treecheck import TreeCheck
 class C13(TreeCheck):
     prop = "C13"
     rule_text = (
-        "programs from g_sem: histories of Lock/RLock/Semaphore/BoundedSemaphore/Condition/Event/Queue/SimpleQueue and executor creation, use in "
+        "programs from g_sem: (every fifth program: names removed behind the object by sem_unlink right before its release) histories of Lock/RLock/Semaphore/BoundedSemaphore/Condition/Event/Queue/SimpleQueue and executor creation, use in "
         "child processes (pickled copies, also children that crash), disposal (drop + gc); endings: normal return (objects released or still "
         "live), uncaught exception, sys.exit, os._exit, worker crash -> broken pool, SIGKILL of the parent (program-level and K-mode at a statement "
         "of submit/spawn/SemLock.__init__ in the driver). Each case has a private tmpfs on /dev/shm with an inotify history, so listings are exact. "
@@ -23,7 +23,7 @@ class C13(TreeCheck):
         out = []
         nkill = 0
         for i in range(n):
-            prog, meta = programs.g_sem(rng)
+            prog, meta = programs.g_sem(rng, pre_unlink=True if i % 5 == 2 else None)
             to = {}
             if meta["ending"] == "killself":
                 nkill += 1
